@@ -48,7 +48,7 @@ func cscenarios() []cscenario {
 			Threads: [][]cop{{{"head", "H1x"}}, {{"addr", "A0p110"}}, {{"observe", ""}}}},
 		{Name: "K5-balance-drop-races-expensive-add", Config: "default", Start: "H1",
 			Threads: [][]cop{{{"head", "H2"}}, {{"addr", "A2big"}}, {{"addr", "A3p100"}}}},
-		// last: its first failing schedule ends the worker (known finding, see known_findings.jsonl)
+		// cold start: the threads run before the pool event loop goroutine has executed at all (found the start-up defect fixed in 7b12067)
 		{Name: "K6-head-change-before-event-loop-first-runs", Config: "default", Start: "H1", Preload: []cop{{"addr", "A2p100"}}, Cold: true,
 			Threads: [][]cop{{{"head", "H1x"}}, {{"addr", "A0p110"}}}},
 	}
